@@ -14,6 +14,7 @@ pub mod model;
 pub mod real;
 pub mod refimport;
 pub mod refparse;
+pub mod refts;
 pub mod render;
 pub mod panicguard;
 pub mod pipeline;
@@ -22,6 +23,7 @@ pub mod report;
 pub mod rng;
 pub mod schema_ix;
 pub mod srcmap;
+pub mod ts;
 pub mod validate;
 
 use ctx::Ctx;
@@ -39,6 +41,7 @@ pub fn run_property(ctx: &Ctx, rep: &mut Report) -> Result<(), String> {
         "C07" => props::c07::run(ctx, rep),
         "C08" => props::c08::run(ctx, rep),
         "C08L" => props::c08::run_loader(ctx, rep),
+        "C10" => props::c10::run(ctx, rep),
         "C11" => props::c11::run(ctx, rep),
         "C12" => props::c12::run(ctx, rep),
         "C13" => props::c13::run(ctx, rep),
@@ -59,6 +62,7 @@ pub fn replay_case(case: &Value, ctx: &Ctx) -> Result<Vec<Violation>, String> {
         "C06" => Ok(props::c06::replay(case)),
         "C07" => Ok(props::c07::replay(case)),
         "C08" => Ok(props::c08::replay(case, ctx)),
+        "C10" => Ok(props::c10::replay(case)),
         "C11" => Ok(props::c11::replay(case)),
         "C12" => Ok(props::c12::replay(case)),
         "C13" => Ok(props::c13::replay(case)),
